@@ -753,8 +753,89 @@ def scen_reverted_setcode_root(r):
     return [base + seg + tail, base + tail]
 
 
+def scen_stale_revision(r):
+    """a finalised transaction that took snapshots but journaled nothing, then a transaction that writes
+    BEFORE taking its own snapshot, writes more and reverts: only the writes after the snapshot go"""
+    a, b = r.randrange(3), r.randrange(3)
+    k1, k2 = r.sample(KEYS, 2)
+    ops = []
+    if r.random() < 0.5:
+        ops += [("set", a, k1, b"old"), ("flush",), ("commit", 1)]
+    h = 2 if ops else 1
+    empty_tx = r.choice([
+        [("snap",), ("get", a, k1), ("getbal", b), ("finalise",)],
+        [("snap",), ("snap",), ("set", b, k2, b"t"), ("revert", 1), ("finalise",)],
+        [("snap",), ("finalise",)]])
+    ops += empty_tx
+    ops += [("set", a, k1, b"v1"), ("setbal", b, 9), ("snap",), ("set", a, k2, b"v2"), ("setbal", b, 11), ("revert", 0), ("finalise",),
+            ("get", a, k1), ("get", a, k2), ("getbal", b), ("flush",), ("commit", h), ("get", a, k1), ("getbal", b),
+            ("reopen",), ("get", a, k1), ("getbal", b), ("dump",)]
+    return [ops]
+
+
+def scen_storage_only_pending(r):
+    """storage-only account (no balance / nonce / code): block N flushed, Commit(N) pending; in block N+1 the
+    account is first touched after a snapshot, the snapshot is reverted"""
+    a = r.randrange(3)
+    k1, k2 = r.sample(KEYS, 2)
+    ops = []
+    h = 0
+    if r.random() < 0.5:
+        ops += [("set", a, k1, b"v0"), ("flush",), ("commit", 1)]
+        h = 1
+    ops += [("set", a, k1, b"v1"), ("set", a, k2, b"w1"), ("flush",),
+            ("snap",), r.choice([("get", a, k1), ("query", a, b""), ("set", a, k2, b"tmp")]), ("revert", 0), ("finalise",),
+            ("get", a, k1), ("get", a, k2), ("query", a, b""),
+            ("commit", h + 1), ("get", a, k1), ("set", a, k1, b"v1"), ("flush",), ("commit", h + 2), ("reopen",), ("get", a, k1), ("get", a, k2), ("dump",)]
+    return [ops]
+
+
+def scen_floor_moves(r):
+    """more than 11 blocks, rollback inside the window, a different continuation above height 10, then targets
+    just below the real floor (must be refused and change nothing), the floor itself, raw dumps in between"""
+    n = r.randrange(12, 16)
+    ops = []
+    for h in range(1, n + 1):
+        ops += [("set", r.randrange(3), r.choice(KEYS), b"h%d" % h), ("setnonce", h % 3, h), ("flush",), ("commit", h)]
+    floor = n - 10
+    t = n - r.randrange(1, 3)
+    ops += [("rollback", t), ("dump",)]
+    for h in range(t + 1, t + 1 + r.randrange(1, 3)):
+        ops += [("set", r.randrange(3), r.choice(KEYS), b"c%d" % h), ("flush",), ("commit", h)]
+        last = h
+    ops += [("dbdump",), ("rollback", floor - 1), ("dump",), ("dbdump",), ("version",), ("rollback", floor), ("dump",), ("dbdump",)]
+    return [ops]
+
+
+def scen_created_account_storage(r):
+    """a block gives an address its first account record AND writes storage under it; rollback; the same
+    block again: same roots, storage gone in between"""
+    a = r.randrange(3)
+    k1, k2 = r.sample(KEYS, 2)
+    base = [("set", (a + 1) % 3, b"a", b"z"), ("flush",), ("commit", 1)]
+    blk = [r.choice([("setbal", a, 5), ("setnonce", a, 1), ("setcode", a, b"c1")]), ("set", a, k1, b"v1"), ("set", a, k2, b"v2")]
+    ops = base + blk + [("flush",), ("commit", 2), ("dump",), ("rollback", 1), ("dump",), ("dbdump",)] + blk + [("flush",), ("commit", 2), ("dump",)]
+    return [ops]
+
+
+def scen_failed_write_after_delete(r):
+    """a committed key is deleted; a failed (reverted) write of the same key before or after the deletion must
+    not change the block's root"""
+    a = r.randrange(3)
+    k = r.choice(KEYS)
+    base = [("set", a, k, b"v0"), ("set", a, r.choice(KEYS), b"o"), ("flush",), ("commit", 1)]
+    if r.random() < 0.5:
+        base.append(("reopen",))
+    dele = _tx([("set", a, k, None)])
+    failed = _tx([("set", a, k, b"junk")], revert=True)
+    tail = [("flush",), ("commit", 2), ("get", a, k), ("dbdump",)]
+    return [base + dele + tail, base + dele + failed + tail, base + failed + dele + tail]
+
+
 SCENARIOS = [scen_delete_rewrite_revert, scen_blind_overwrite_cold, scen_read_between_flush_and_commit,
-             scen_code_rollback_continuation, scen_window_floor, scen_reverted_setcode_root]
+             scen_code_rollback_continuation, scen_window_floor, scen_reverted_setcode_root,
+             scen_stale_revision, scen_storage_only_pending, scen_floor_moves, scen_created_account_storage,
+             scen_failed_write_after_delete]
 
 
 def scenario_groups(r, per=6):
